@@ -32,7 +32,7 @@ import Driver.Netns
 open Corerad
 
 def handlers : List (String × (List String → List String → Option Verdict)) := [
-  ("md", Driver.C05.md), ("mloop", Driver.C05.mloop), ("mstall", Driver.C05.mstall),
+  ("md", Driver.C05.md), ("mloop", Driver.C05.mloop), ("mstall", Driver.C05.mstall), ("mfw", Driver.C05.mfw),
   ("pl", Driver.C16.pl), ("rl", Driver.C16.rl),
   ("wp", Driver.Wild.wp), ("wperr", Driver.Wild.wperr),
   ("wd", Driver.Wild.wd), ("wderr", Driver.Wild.wderr), ("wdstatic", Driver.Wild.wdstatic),
